@@ -63,6 +63,7 @@ def pool(tier):
     add([], [])
     add(["x", "y"], ["shuf", "dec"], kind="ds")
     add(["x"], ["ovl"], kind="ds")
+    add(["x", "y"], ["empty", "inc"], kind="ds")     # a Dataset whose x axis has no labels (everything requested from it is missing)
     return P
 
 
